@@ -14,20 +14,21 @@ import (
 
 // Result is what one operation left behind.
 type Result struct {
-	Panicked bool
-	IsNaN    bool   // panic value has dynamic type decimal.ErrNaN
-	PanicTyp string // dynamic type of the panic value
-	PanicMsg string
-	Injected bool // the panic was injected by the simulator
-	Failed   bool // the call reported failure through its return values
-	Skipped  bool // not executed (cost guard)
-	Timeout  bool // reference execution exceeded its step budget
-	Ret      string
-	NilRes   bool   // a factory that is documented to return a Decimal returned nil
-	Foreign  string // non-empty: a math/big operand (SetInt, SetRat, SetFloat) was changed by the call
-	Z        Obs
-	HasZ     bool
-	Yields   int
+	Panicked   bool
+	IsNaN      bool   // panic value has dynamic type decimal.ErrNaN
+	PanicTyp   string // dynamic type of the panic value
+	PanicMsg   string
+	Injected   bool // the panic was injected by the simulator
+	Failed     bool // the call reported failure through its return values
+	Skipped    bool // not executed (cost guard)
+	Timeout    bool // reference execution exceeded its step budget
+	Ret        string
+	WriteFault string // non-empty: the call faulted on write-protected operand memory (C18)
+	NilRes     bool   // a factory that is documented to return a Decimal returned nil
+	Foreign    string // non-empty: a math/big operand (SetInt, SetRat, SetFloat) was changed by the call
+	Z          Obs
+	HasZ       bool
+	Yields     int
 }
 
 // Key is the comparison key of a result (DESIGN §3.4 observation tuple + return
@@ -169,6 +170,7 @@ func execOp(w *World, op *Op) (res Result) {
 				res.Timeout = true
 			}
 			res.Panicked = true
+			res.WriteFault = faultInProtected(r)
 			res.Injected = verifrt.PanicsFired() > fired0
 			_, res.IsNaN = r.(decimal.ErrNaN)
 			res.PanicTyp = fmt.Sprintf("%T", r)
